@@ -227,7 +227,7 @@ example : ∃ a' b' mem',
     C01s.Rep C01s.Witness.K C01s.Witness.σ' mem' := by
   have h := C01_stage3_partial C01s.Witness.K 4 C01s.Witness.wf 10 C01s.Witness.stmt C01s.Witness.σ C01s.Witness.stmt_ok
     {} C01s.Witness.code {} 0 0 0 C01s.Witness.mem C01s.Witness.gen_ok C01s.Witness.code_at C01s.Witness.rep
-    (Nat.zero_le _) (Nat.le_refl _) (fun e he => by simp at he)
+    (Nat.zero_le _) (Nat.le_refl _) (fun e he => by simp [Xcmp.GS.items] at he)
   rw [C01s.Witness.exec_ok] at h
   exact h
 
